@@ -4,7 +4,7 @@ CONSTANTS
   MaxLen = 3
   KeyWithoutType = FALSE
   FirstIndexOnly = FALSE
-  NameSet = {"X", "W", "Name", "AName", "nosuch", "x"}
+  NameSet = {"X", "W", "Name", "AName", "nosuch", "x", "Cust"}
 INVARIANTS
   CacheUnobservable
   Bounded
